@@ -69,17 +69,23 @@ def consumers_of(b, l, depth=0):
 def pan2(ctx):
     r = RuleResult("PAN-2", "no numeric literal of the rule / alias text is converted with parse().unwrap() / expect()", floor=19)
     lib = ctx.lib
-    # arming: the lexers put no length bound on digit runs
-    bounded = []
-    for fpath in ("asca::lexer::Lexer::get_numeric", "asca::alias::lexer::AliasLexer::get_numeric"):
+    # arming: does the lexer of a grammar bound the length of a digit run (and by how much)?
+    LIMIT = {"usize": 2 ** 32 - 1, "u64": 2 ** 64 - 1, "u32": 2 ** 32 - 1, "u16": 2 ** 16 - 1, "u8": 255, "isize": 2 ** 31 - 1, "i64": 2 ** 63 - 1, "i32": 2 ** 31 - 1, "i16": 2 ** 15 - 1, "i8": 127}
+    bound = {}
+    for gram, fpath, tok in (("rule", "asca::lexer::Lexer::get_numeric", "asca::lexer::Token"), ("alias", "asca::alias::lexer::AliasLexer::get_numeric", "asca::alias::AliasToken")):
         b = ctx.fn(lib, fpath)
-        cmp_len = [n for n in hirq.walk(b.hir["body"]) if n["e"] == "binary" and n["op"] in ("Lt", "Le", "Gt", "Ge")
-                   and any(m["e"] == "mcall" and m["name"] in ("len", "count") for m in hirq.walk(n))]
-        if cmp_len:
-            bounded.append(fpath)
-    armed = len(bounded) < 2
-    r.inst("digit runs are unbounded in the lexers (rule armed)" if armed else "both lexers bound the length of digit runs (rule disarmed)",
-           None, "ok", nontrivial=False)
+        nmax = None
+        for n_ in hirq.walk(b.hir["body"]):
+            if n_["e"] == "if":
+                c = hirq.strip(n_["cond"])
+                if c.get("e") == "binary" and c["op"] in ("Gt", "Ge") and any(m["e"] == "mcall" and m["name"] in ("len", "count") for m in hirq.walk(c["a"])) \
+                        and hirq.strip(c["b"]).get("e") == "lit" and isinstance(hirq.strip(c["b"]).get("lit"), int) \
+                        and any(m["e"] == "ret" or (m["e"] == "call" and (hirq.strip(m["f"]).get("path") or "").endswith("Result::Err")) for m in hirq.walk(n_["then"])):
+                    k_ = hirq.strip(c["b"])["lit"]
+                    nmax = k_ if c["op"] == "Gt" else k_ - 1
+        bound[tok] = nmax
+        r.inst("%s lexer: digit runs are %s" % (gram, "unbounded (parse sites of that grammar are armed)" if nmax is None else "at most %d digits long" % nmax), fn_loc(b), "ok", nontrivial=False)
+    armed = True
     n = 0
     for b in lib.bodies:
         if b.in_test_mod():
@@ -93,6 +99,7 @@ def pan2(ctx):
             recv = t["args"][0]["pl"]["l"] if t["args"] and t["args"][0].get("k") in ("copy", "move") else None
             fields = chain_fields(b, recv) if recv is not None else []
             from_token = any(a in TOKEN_TYPES and f == "value" for a, f in fields)
+            tok_ty = next((a for a, f in fields if a in TOKEN_TYPES and f == "value"), None)
             cons = consumers_of(b, t["dest"]["l"]) if not t["dest"]["p"] else []
             names = [(callee_path(c) or "").rsplit("::", 1)[-1] for c in cons]
             n += 1
@@ -105,6 +112,10 @@ def pan2(ctx):
                 r.inst("%s: parse::<%s> of a string that is not token text (%s)" % (fn, ty, names), short_loc(t["loc"]), "accepted:not user digits" if not bad else "ok",
                        nontrivial=False)
                 # a parse of non-token text followed by unwrap is judged by its own origin rule (e.g. FLW-6 for tones)
+                continue
+            nb = bound.get(tok_ty)
+            if bad and nb is not None and 10 ** nb - 1 <= LIMIT.get(ty, 0):
+                r.inst("%s: token digits (at most %d, bounded by the lexer) -> parse::<%s> -> %s" % (fn, nb, ty, bad[0]), short_loc(t["loc"]), "ok")
                 continue
             if bad and armed and b.path.startswith("asca::subrule::"):
                 why = _arm_unreachable(lib, b, int(t["loc"].split(":")[1]))
